@@ -390,7 +390,7 @@ fn eval_axis_node_test(
 
     let mut tested = vec![];
     for node in nodes {
-        if eval_node_test(test, node.clone(), context)? {
+        if eval_node_test(axis, test, node.clone(), context)? {
             tested.push(node);
         }
     }
@@ -437,12 +437,31 @@ fn eval_axis_node_test(
     Ok(nodes)
 }
 
+/// A name test selects nodes of the principal node type of the axis only:
+/// attributes on the attribute axis, namespace nodes on the namespace axis, elements otherwise.
+fn is_principal_node_type(axis: &expr::AxisSpecifier, node: &dom::XmlNode) -> bool {
+    match axis {
+        expr::AxisSpecifier::Abbreviated(v) if v == "@" => {
+            matches!(node, dom::XmlNode::Attribute(_))
+        }
+        expr::AxisSpecifier::Name(expr::AxisName::Attribute) => {
+            matches!(node, dom::XmlNode::Attribute(_))
+        }
+        expr::AxisSpecifier::Name(expr::AxisName::Namespace) => {
+            matches!(node, dom::XmlNode::Namespace(_))
+        }
+        _ => matches!(node, dom::XmlNode::Element(_)),
+    }
+}
+
 fn eval_node_test(
+    axis: &expr::AxisSpecifier,
     test: &expr::NodeTest,
     node: dom::XmlNode,
     context: &mut model::Context,
 ) -> error::Result<bool> {
     match test {
+        expr::NodeTest::Name(_) if !is_principal_node_type(axis, &node) => Ok(false),
         expr::NodeTest::Name(name) => match name {
             expr::NameTest::All => Ok(true),
             expr::NameTest::Namespace(prefix) => {
